@@ -1,6 +1,7 @@
 (* C02 — Field store/load round-trips and never disturbs bits outside the field. *)
-From Coq Require Import ZArith List Bool.
+From Coq Require Import String ZArith List Bool Lia.
 From DD Require Import Common Carrier Bits BitsSpec BitsProofs BitsRoundtrip BitsAlgebra.
+From DD Require Import Mir Layout LayoutProofs FieldSetGen FieldSetLaws.
 Import ListNotations.
 Open Scope Z_scope.
 
@@ -143,6 +144,65 @@ Example C02_write_others_read_inhabited :
   load 64 BE MSB0 I16 [0xD5; 0xFF; 0xBD] 3 17 = Some (Ok ((-3) mod 2 ^ 14)).
 Proof. vm_compute. split; reflexivity. Qed.
 
+(* ---- the quantifier's last clause at the level of GENERATED accessors (FieldSetLaws.v) ----
+   "setting field A then field B never changes what A reads unless the definition lets them overlap":
+   for every field set the layout validation accepts (set_ok = C11_accept_iff_wf's well-formedness) without
+   AllowBitOverlap, every two different positions of its field list, both orders, every value and every
+   prior content of the set's byte array, the emitted setter of g (FieldSetGen.setter_of: carrier, range and
+   ops function as lir_transform / field_set_transform emit them, compared with the real token stream by C06)
+   leaves what the emitted getter of f returns unchanged. *)
+Theorem C02_generated_fields_independent : forall ptrw bo bi size fs i j f g v bytes,
+  In ptrw ptr_widths -> size <> 0 -> set_ok fs size false ->
+  nth_error fs i = Some f -> nth_error fs j = Some g -> i <> j ->
+  0 <= f_start f -> field_end f - f_start f <= 128 -> 0 <= f_start g -> field_end g - f_start g <= 128 ->
+  bytes_ok bytes -> Z.of_nat (List.length bytes) = div_ceil8 size ->
+  exists bytes', setter_call ptrw (setter_of bo bi (widen g)) v bytes = Some (Ok bytes') /\
+    List.length bytes' = List.length bytes /\ bytes_ok bytes' /\
+    getter_call ptrw (getter_of bo bi (widen f)) bytes' = getter_call ptrw (getter_of bo bi (widen f)) bytes.
+Proof. exact accepted_set_fields_independent. Qed.
+
+Definition c02_fld (n : String.string) (b : base_type) (s e : Z) : field :=
+  {| f_cfg := None; f_name := n; f_access := RW; f_base := b; f_conv := None; f_start := s; f_end := e |}.
+
+(* hypotheses inhabited: a 16-bit set with a uint [0,4), an int [4,12) and a bare-index bool at 15;
+   and the conclusion evaluated on it (BE, MSB0). *)
+Example C02_generated_fields_independent_inhabited :
+  let fs := [c02_fld "a"%string BUint 0 4; c02_fld "b"%string BInt 4 12; c02_fld "c"%string BBool 15 15] in
+  set_ok fs 16 false /\
+  (match setter_call 64 (setter_of BoBE BiMSB0 (widen (c02_fld "b"%string BInt 4 12))) (-2) [0xA5; 0x5A] with
+   | Some (Ok d) => getter_call 64 (getter_of BoBE BiMSB0 (widen (c02_fld "a"%string BUint 0 4))) d
+   | _ => None end)
+  = getter_call 64 (getter_of BoBE BiMSB0 (widen (c02_fld "a"%string BUint 0 4))) [0xA5; 0x5A].
+Proof.
+  cbv zeta. split; [|vm_compute; reflexivity].
+  split.
+  - repeat constructor; cbn; try lia; try discriminate; intros H; try discriminate H; try (split; [lia|reflexivity]).
+  - intros _. cbn [pairwise]. unfold fields_disjoint, field_end. cbn.
+    repeat split; try (repeat constructor); cbn; lia.
+Qed.
+
+(* set_x(v) then x() on one emitted field: the carrier reading of v reduced to the field's width.  For `uint`
+   fields and for `int` fields that fill their carrier this is the property's read-back; for an `int` field
+   narrower than its carrier it is the UNSIGNED reading (D1) — the witness below is D1 at the generated level. *)
+Theorem C02_generated_set_then_get : forall ptrw bo bi size f v bytes,
+  In ptrw ptr_widths -> size <> 0 ->
+  field_ok size f -> 0 <= f_start f -> field_end f - f_start f <= 128 ->
+  bytes_ok bytes -> Z.of_nat (List.length bytes) = div_ceil8 size ->
+  exists c bytes', cty_of (field_signed f) (field_cbits (widen f)) = Some c /\
+    setter_call ptrw (setter_of bo bi (widen f)) v bytes = Some (Ok bytes') /\
+    getter_call ptrw (getter_of bo bi (widen f)) bytes' =
+      Some (Ok (wrap (cty_ity ptrw c) (v mod 2 ^ (field_end f - f_start f)))).
+Proof. exact generated_set_then_get. Qed.
+
+Example C02_generated_set_then_get_D1 :
+  (match setter_call 64 (setter_of BoLE BiLSB0 (widen (c02_fld "a"%string BInt 0 4))) (-1) [0] with
+   | Some (Ok d) => getter_call 64 (getter_of BoLE BiLSB0 (widen (c02_fld "a"%string BInt 0 4))) d
+   | _ => None end) = Some (Ok 15) /\
+  (match setter_call 64 (setter_of BoLE BiLSB0 (widen (c02_fld "b"%string BInt 0 8))) (-1) [0] with
+   | Some (Ok d) => getter_call 64 (getter_of BoLE BiLSB0 (widen (c02_fld "b"%string BInt 0 8))) d
+   | _ => None end) = Some (Ok (-1)).
+Proof. vm_compute. split; reflexivity. Qed.
+
 Print Assumptions C02_isolation.
 Print Assumptions C02_load_local.
 Print Assumptions C02_roundtrip_unsigned.
@@ -156,3 +216,5 @@ Print Assumptions C02_store_of_loaded_is_identity.
 Print Assumptions C02_last_store_wins.
 Print Assumptions C02_disjoint_stores_commute.
 Print Assumptions C02_write_others_read.
+Print Assumptions C02_generated_fields_independent.
+Print Assumptions C02_generated_set_then_get.
